@@ -243,6 +243,8 @@ void vb_invoke(rlbox_sandbox<SBX>& s)
   auto pcv = ps.copy_and_verify([](std::unique_ptr<tainted<VbS1, SBX>> x) { return x != nullptr; }); (void)pcv;
   auto su = sv.UNSAFE_unverified(); auto ss = sv.UNSAFE_sandboxed(s); auto vu = vs.UNSAFE_unverified();
   auto sub = sv.unverified_safe_because("x"); auto sop = sv.to_opaque(); auto sback = from_opaque(sop); (void)su; (void)ss; (void)vu; (void)sub; (void)sback;
+  { tainted<VbS2*, SBX> p2 = s.malloc_in_sandbox<VbS2>(); tainted<VbS2, SBX> v2 = *p2; *p2 = v2; auto u2 = p2->UNSAFE_unverified(); auto ss2 = v2.UNSAFE_sandboxed(s); auto uu2 = v2.UNSAFE_unverified(); (void)u2; (void)ss2; (void)uu2;
+    tainted<VbInner*, SBX> p3 = s.malloc_in_sandbox<VbInner>(); tainted<VbInner, SBX> v3 = *p3; *p3 = v3; auto u3 = p3->UNSAFE_unverified(); auto ss3 = v3.UNSAFE_sandboxed(s); (void)u3; (void)ss3; }
   tainted<long, SBX> l = 3; tainted<int*, SBX> pi = s.malloc_in_sandbox<int>();
   auto res = s.invoke_sandbox_function(vb_f1, l, pi, sv); auto r2 = s.invoke_sandbox_function(vb_f2); s.invoke_sandbox_function(vb_f3);
   auto res1 = s.invoke_sandbox_function(vb_f1, 5, nullptr, sv); auto res2 = s.invoke_sandbox_function(vb_f1, l.to_opaque(), pi.to_opaque(), sop);
